@@ -50,7 +50,19 @@ def gen_cases(tier, seed):
     rnd = random.Random(seed)
     reps = 3 if tier == 'quick' else 40
     nrec = (0, 1, 2, 3) if tier == 'quick' else (0, 1, 2, 3, 5, 8)
+    import copy
+    invs = []
     for inv in invocations():
+        invs.append(inv)
+        if inv.callid == 29 and inv.args[0] in (0x06, 0x10, 0x19):
+            # the record numbers 0xF0..0xFE designate groups of records (0xFE: all OBD records): the answer holds records of other numbers
+            for grp in (0xF0, 0xFE):
+                v = copy.copy(inv)
+                v.args = list(inv.args)
+                v.args[12], v.args[13] = 1, grp
+                v.name = inv.name + ' group %#x' % grp
+                invs.append(v)
+    for inv in invs:
         if inv.callid in (1, 5):
             continue
         for strict in (0, 1):
@@ -75,6 +87,13 @@ def gen_cases(tier, seed):
                             c = cl.H(cfgv, dids=dt).call(inv.callid, inv.args, inv.blobs, [(10, reply)]).case(5000, '%s / %s' % (inv.name, tag))
                             EXPECT[c.line()] = sd
                             yield c
+                    # responses of several hundred bytes (40 and 70 records)
+                    if inv.callid == 29 and sds == 2:
+                        for reply, sd, rs, tag in respspec.gen(inv, h0.cfg, rnd, (40, 70)):
+                            if len(reply) >= 200:
+                                c = cl.H(cfgv, dids=dt).call(inv.callid, inv.args, inv.blobs, [(10, reply)]).case(5000, '%s / %s (long)' % (inv.name, tag))
+                                EXPECT[c.line()] = sd
+                                yield c
 
 
 def nontrivial(c, r):
